@@ -2,7 +2,7 @@
 C11 - pattern matching is equivalent to the explicit query it abbreviates.
 
 E1: every pattern entity_matching(Box, dom)(tag=?, main=?, items=?) where each slot is absent or one constraint from the
-slot's alphabet (literal, literal list, nested match one and two levels deep, subclass match, match_any / match_all over
+slot's alphabet (literal, literal list, nested match one, two and three levels deep, subclass match, match_any / match_all over
 every non-empty sub-list of a 3-item universe, and the select twin of each), over a domain that contains one box per
 distinct (tag, main, items) valuation PLUS a twin with equal attribute values, plus non-Box elements.
 """
@@ -15,7 +15,7 @@ from mc.core import CaseResult, Failure, HarnessError
 PROPERTY = "C11"
 LEVEL = "exploration"
 RULE = ("all patterns over 3 slots (tag: literal | literal list; main: literal | nested match | subclass match | two-level "
-        "nested match | select twins; items: literal element | match_any(L) | match_all(L) for every non-empty sub-list "
+        "nested match | select twins incl. selects two and three levels below the root pattern; items: literal element | match_any(L) | match_all(L) for every non-empty sub-list "
         "and both orders of pairs | nested match on the collection | subclass match | select twins), every combination "
         "of slots, evaluated over 234 boxes (every attribute valuation twice) + foreign elements; expected = the boxes "
         "satisfying a direct Python predicate, compared as identity sets; selected parts must be the matched box's own "
@@ -29,7 +29,11 @@ BUDGET_S = {"quick": 900, "thorough": 6000}
 
 TAG = [None, ("lit", 1), ("litlist", (1, 3)), ("litlist", (2,))]
 MAIN = [None, ("lit", "i1"), ("match", "MItem", 1), ("match", "MSubItem", 1), ("match_sub", "MSubItem"), ("match2", 2),
-        ("select", "MItem", 1), ("select_sub", "MSubItem")]
+        ("select", "MItem", 1), ("select_sub", "MSubItem"),
+        # a select two levels below the root pattern, under a match and under another select
+        ("match_select2", 2), ("match_select2", 1), ("select_select2", 2),
+        # ... and three levels below it
+        ("match_select3", 7), ("select_select3", 8)]
 SUBLISTS = [("i1",), ("i2",), ("i3",), ("i1", "i2"), ("i2", "i1"), ("i1", "i3"), ("i2", "i3"), ("i1", "i2", "i3")]
 ITEMS = ([None, ("lit", "i3"), ("lit", "i1")] + [("any", L) for L in SUBLISTS] + [("all", L) for L in SUBLISTS]
          + [("match", "MItem", 1), ("match", "MItem", 2), ("match", "MSubItem", 1), ("match", "MSubItem", 2),
@@ -57,7 +61,7 @@ def init_worker():
     _M = M
     SymbolGraph().clear()
     SymbolGraph()
-    pA, pB = M.MPart(1, "pA"), M.MPart(2, "pB")
+    pA, pB = M.MPart(1, "pA", M.MCore(7, "cA")), M.MPart(2, "pB", M.MCore(8, "cB"))
     it = {"i1": M.MItem(1, pA, "i1"), "i2": M.MSubItem(2, pB, "i2"), "i3": M.MItem(1, pB, "i3"),
           "i4": M.MSubItem(1, pA, "i4")}
     names = list(it)
@@ -95,7 +99,9 @@ def predicate(case):
                 return False
             if k in ("match_sub", "select_sub") and not isinstance(b.main, M.MSubItem):
                 return False
-            if k == "match2" and not (b.main.sub.k == m[1]):
+            if k in ("match2", "match_select2", "select_select2") and not (b.main.sub.k == m[1]):
+                return False
+            if k in ("match_select3", "select_select3") and not (b.main.sub.core.k == m[1]):
                 return False
         if i is not None:
             k = i[0]
@@ -140,6 +146,20 @@ def build(case):
         elif k == "select_sub":
             selects["main"] = select(getattr(M, m[1]))
             kw["main"] = selects["main"]()
+        elif k == "match_select2":
+            selects["main.sub"] = select(M.MPart)
+            kw["main"] = match(M.MItem)(sub=selects["main.sub"](k=m[1]))
+        elif k == "select_select2":
+            selects["main"] = select(M.MItem)
+            selects["main.sub"] = select(M.MPart)
+            kw["main"] = selects["main"](sub=selects["main.sub"](k=m[1]))
+        elif k == "match_select3":
+            selects["main.sub.core"] = select(M.MCore)
+            kw["main"] = match(M.MItem)(sub=match(M.MPart)(core=selects["main.sub.core"](k=m[1])))
+        elif k == "select_select3":
+            selects["main.sub"] = select(M.MPart)
+            selects["main.sub.core"] = select(M.MCore)
+            kw["main"] = match(M.MItem)(sub=selects["main.sub"](core=selects["main.sub.core"](k=m[1])))
     if i is not None:
         k = i[0]
         if k == "lit":
@@ -184,10 +204,26 @@ def run_case(case):
     bad_parts = []
     for r in rows:
         if selects:
-            b = r[root]
+            try:
+                b = r[root]
+            except (TypeError, KeyError):
+                res.failures.append(Failure("inconsistent-selected-part", f"{label}: the pattern selects {sorted(selects)} but an answer "
+                                                                          f"is {repr(r)[:60]} instead of a binding of the selected variables"))
+                break
             for slot, s in selects.items():
-                part = r[s]
-                if part is not getattr(b, slot):
+                try:
+                    part = r[s]
+                except KeyError:
+                    bad_parts.append((b.name, slot, "<the selected part is not in the result>"))
+                    continue
+                own = b
+                for step in slot.split("."):
+                    own = getattr(own, step)
+                if slot == "items":
+                    # a selected collection attribute is reported as the collection itself or as one of its elements
+                    if part is not own and not any(part is e for e in own):
+                        bad_parts.append((b.name, slot, repr(part)[:40]))
+                elif part is not own:
                     bad_parts.append((b.name, slot, repr(part)[:40]))
         else:
             b = r
@@ -231,7 +267,8 @@ def cluster_key(case, f):
 
 def finish(run):
     if run.exhaustive and not run.failures:
-        for k in ("items:any", "items:all", "main:match2", "main:select", "tag:litlist"):
+        for k in ("items:any", "items:all", "main:match2", "main:select", "tag:litlist", "main:match_select2", "main:select_select2", "main:match_select3",
+                  "main:select_select3"):
             if not run.features.get(k):
                 raise HarnessError("vacuous: " + k)
 
